@@ -43,7 +43,9 @@ def handle (s : S) (i : Nat) (j : Json) : S × List Json :=
     let denom := st.obs.ssDenom
     let posAddrs := st.obs.levPositions.map (·.posAddr)
     let moves := st.beginMoves ++ st.txs.flatMap (·.moves) ++ st.endMoves
-    let hasPost (a : String) : Bool := st.obs.debts.any (fun d => d.addr == a)
+    -- a record that is all zeros after the block is a debt that was repaid in full (deleted, then re-created empty by a later read-and-save
+    -- of the same block, e.g. the health refresh of a position that keeps a few dust shares): as good as gone
+    let hasPost (a : String) : Bool := st.obs.debts.any (fun d => d.addr == a && !(d.borrowed == 0 && d.stacked == 0 && d.paid == 0))
     let isDebtor (m : St) (a : String) : Bool := hasPost a || m.borrowed.get a != 0 || posAddrs.contains a
     -- W for a debt that no longer exists after the block: all its interest was paid, so
     -- interest accrued in the block = Σ repaid − Σ borrowed in the block − principal before − interest owed before
@@ -59,7 +61,12 @@ def handle (s : S) (i : Nat) (j : Json) : S × List Json :=
       if mv.dst == s.vault then
         let a := mv.src
         if isDebtor sc.m a then
+          -- a debt whose interest counter is LOWER after the block than before was repaid in full by this transfer and re-created
+          -- later in the block (close leaving dust shares, then a consolidating open): the interest it accrued is what the
+          -- transfer paid beyond principal and interest owed
           let w := if sc.seen.contains a then 0
+                   else if hasPost a && o.stacked.get a < sc.m.stacked.get a then
+                     max 0 (mv.amt - sc.m.borrowed.get a - (sc.m.stacked.get a - sc.m.paid.get a))
                    else if hasPost a then o.stacked.get a - sc.m.stacked.get a
                    else goneInterest s.model a
           applyOp { sc with seen := a :: sc.seen } (Op.repay a w mv.amt)
